@@ -403,7 +403,7 @@ func ruleC01(c *Ctx) {
 		c.count("C01-R1/signed-accepting", nSigned)
 		c.count("C01-R1/unsigned-accepting", nUnsigned)
 		c.floor("C01-R1/signed-accepting", 1)
-		c.floor("C01-R1/unsigned-accepting", 2)
+		c.floor("C01-R1/unsigned-accepting", 1) // the iterating path; a zero-assertion accepting path exists only as long as nothing re-checks what Validate guarantees
 		n := errorDiscipline(c, "C01-R3", res)
 		c.count("C01-R3/verify-sites", n)
 		c.floor("C01-R3/verify-sites", 2)
